@@ -342,7 +342,7 @@ pub fn run_c06(ctx: &Ctx, rep: &mut Report) {
         rep.notes.push("no power-of-two radix writers in this configuration".into());
         return;
     }
-    let per = ctx.n((2_000_000 / js.len() as u64).max(2000), 2_000_000);
+    let per = ctx.n((2_000_000 / js.len() as u64).max(2000), 400_000);
     run_prop_jobs(rep, ctx, "pow2:generated", &js, per, |j| case_strategy(kind_of(j.ty), cat().models[j.entry].mantissa_radix(), false), case_json, check_pow2);
     // every binade x a few mantissa patterns x both forced notations
     let per_binade: u64 = ctx.n(3, 200);
@@ -387,7 +387,7 @@ pub fn run_c07(ctx: &Ctx, rep: &mut Report) {
         rep.notes.push("no generic radix writers in this configuration".into());
         return;
     }
-    let per = ctx.n((2_000_000 / js.len() as u64).max(2000), 3_000_000);
+    let per = ctx.n((2_000_000 / js.len() as u64).max(2000), 400_000);
     run_prop_jobs(rep, ctx, "generic:generated", &js, per, |j| case_strategy(kind_of(j.ty), cat().models[j.entry].mantissa_radix(), true), case_json, check_generic);
 }
 
